@@ -61,12 +61,12 @@ fn dump_token(bytes: &[u8], brief: bool) -> Option<Vec<u8>> {
 }
 
 /// The library's reports for these bytes, options and symbol paths (None = processing fails).
-fn library_tokens(bytes: &[u8], features: &str, symbol_paths: &[PathBuf]) -> Option<HashMap<&'static str, Vec<u8>>> {
+fn library_tokens(bytes: &[u8], features: &str, symbol_paths: &[PathBuf], rfa: bool) -> Option<HashMap<&'static str, Vec<u8>>> {
     let dump = Minidump::read(bytes).ok()?;
     let mut provider = MultiSymbolProvider::new();
     if !symbol_paths.is_empty() { provider.add(Box::new(Symbolizer::new(simple_symbol_supplier(symbol_paths.to_vec())))); }
     let mut options = match features { "stable-all" => ProcessorOptions::stable_all(), "unstable-all" => ProcessorOptions::unstable_all(), _ => ProcessorOptions::stable_basic() };
-    options.recover_function_args = false;
+    options.recover_function_args = rfa;
     let state = block_on(Box::pin(process_minidump_with_options(&dump, &provider, options))).ok()?;
     let mut m = HashMap::new();
     let (mut a, mut b, mut c, mut d) = (vec![], vec![], vec![], vec![]);
@@ -152,6 +152,8 @@ fn main() {
                 if c["outfile"].as_bool().unwrap() { cmd.arg("--output-file").arg(&of); }
                 let features = c["features"].as_str().unwrap();
                 if features != "stable-basic" { cmd.arg(format!("--features={}", features)); }
+                let rfa = c["rfa"].as_bool().unwrap_or(false);
+                if rfa { cmd.arg("--recover-function-args"); }
                 let mut sym_paths: Vec<PathBuf> = vec![];
                 match c["symbols"].as_str().unwrap() {
                     "flag" => { cmd.arg("--symbols-path").arg(&symdir); sym_paths.push(symdir.clone()); }
@@ -164,9 +166,9 @@ fn main() {
                 let out = match cmd.output() { Ok(o) => o, Err(e) => { rep.lock().unwrap().mismatch("cli:spawn", json!({"error": e.to_string()})); continue; } };
                 let exp = &c["out"];
                 // expected bytes per sink
-                let key = format!("{}|{}|{:?}", dump_path.display(), features, sym_paths);
+                let key = format!("{}|{}|{:?}|{}", dump_path.display(), features, sym_paths, rfa);
                 let toks = { let mut tc = token_cache.lock().unwrap();
-                    if !tc.contains_key(&key) { let v = if dump_bytes.is_empty() { None } else { guarded(|| library_tokens(&dump_bytes, features, &sym_paths)).ok().flatten() }; tc.insert(key.clone(), v); }
+                    if !tc.contains_key(&key) { let v = if dump_bytes.is_empty() { None } else { guarded(|| library_tokens(&dump_bytes, features, &sym_paths, rfa)).ok().flatten() }; tc.insert(key.clone(), v); }
                     tc[&key].clone() };
                 let tok = |names: &Value| -> Option<Vec<u8>> {
                     let mut v = vec![];
